@@ -150,6 +150,10 @@ type Config struct {
 	// Big > 0: the key universe is a dense run of Big keys (instead of the ~60 hand-picked ones), so that
 	// histories reach the heights that only sizes in the hundreds allow (height 2 at the default branch factor 16).
 	Big int `json:"big,omitempty"`
+	// Extra: the 64-bit key universes also hold the keys added later in this framework's life (neighbours above 2^53,
+	// 2^60 and their negatives). Configurations recorded earlier - the golden vectors of C14, older replay files - do not set
+	// it and keep the universe they were recorded with (keys are addressed by their index in the sorted universe).
+	Extra bool `json:"extra,omitempty"`
 }
 
 func (c Config) String() string {
@@ -505,7 +509,7 @@ func (c Config) Pool() []interface{} {
 		}
 		return out
 	}
-	ck := fmt.Sprintf("%s/%d/%s/%d/%s", c.Key, c.BF, c.Marshaler, c.Big, c.Cmp)
+	ck := fmt.Sprintf("%s/%d/%s/%d/%s/%v", c.Key, c.BF, c.Marshaler, c.Big, c.Cmp, c.Extra)
 	if v, ok := poolCache.Load(ck); ok {
 		return v.([]interface{})
 	}
@@ -599,7 +603,10 @@ func (c Config) buildPool() []interface{} {
 		}
 		if c.Key == KInt64 {
 			// extremes (differences that overflow) and neighbours above 2^53 (which collapse when compared as float64)
-			out = append(out, int64(-1<<63), int64(1<<62), int64(1<<63-1), int64(1<<53), int64(1<<53+1), int64(1<<60+1), int64(1<<60+2), int64(-1<<60-1), int64(-1<<60-2))
+			out = append(out, int64(-1<<63), int64(1<<62), int64(1<<63-1))
+			if c.Extra {
+				out = append(out, int64(1<<53), int64(1<<53+1), int64(1<<60+1), int64(1<<60+2), int64(-1<<60-1), int64(-1<<60-2))
+			}
 		}
 		return out
 	case KUint, KUint64:
@@ -612,7 +619,10 @@ func (c Config) buildPool() []interface{} {
 			}
 		}
 		if c.Key == KUint64 {
-			out = append(out, uint64(1<<53), uint64(1<<53+1), uint64(1<<60+1), uint64(1<<60+2), uint64(1<<63), ^uint64(0), ^uint64(0)-1, uint64(1<<63)+uint64(pw(2)))
+			out = append(out, uint64(1<<53+1), uint64(1<<63), ^uint64(0), uint64(1<<63)+uint64(pw(2)))
+			if c.Extra {
+				out = append(out, uint64(1<<53), uint64(1<<60+1), uint64(1<<60+2), ^uint64(0)-1)
+			}
 		} else {
 			out = append(out, uint(1<<53+1), ^uint(0))
 		}
